@@ -541,23 +541,36 @@ func (ph *cutPhase) dropOthers() error {
 	return nil
 }
 
+// othersUntouched checks that recovery and the append after it left every other segment
+// alone.  The only legitimate change is that the appended record did not fit and the log
+// rotated into the next id, which may be an existing empty segment; restore() empties it again.
 func (ph *cutPhase) othersUntouched() error {
 	for f, sz := range ph.orig {
 		if f == ph.path {
 			continue
 		}
 		st, err := os.Stat(f)
-		if err != nil || st.Size() != sz {
-			return pbt.Failf("other-segment-changed", "recovery changed %s (was %d bytes, now %v %v)", filepath.Base(f), sz, st, err)
+		if err != nil {
+			return pbt.Failf("other-segment-changed", "recovery removed %s: %v", filepath.Base(f), err)
 		}
+		if st.Size() == sz {
+			continue
+		}
+		if sz == 0 && f == segPath(ph.dir, ph.cutSeg+1) {
+			continue
+		}
+		return pbt.Failf("other-segment-changed", "recovery or the append after it changed %s (was %d bytes, now %d)", filepath.Base(f), sz, st.Size())
 	}
 	return nil
 }
 
 func (ph *cutPhase) restore() {
 	for _, f := range listWal(ph.dir) {
-		if _, ok := ph.orig[f]; !ok {
+		sz, ok := ph.orig[f]
+		if !ok {
 			_ = os.Remove(f)
+		} else if f != ph.path && sz == 0 {
+			_ = os.Truncate(f, 0)
 		}
 	}
 }
